@@ -246,6 +246,16 @@ def catalogue():
     cat.append(("partial_fit:singular_huge_row", "inside",
                 lambda cfg, sh: cfg["np"]["kind"] == "none" and cfg["lp"]["kind"] in ("lingreedy", "linucb", "lints") and sh.fitted
                 and sh.nf >= 2 and len(sh.arms) >= 2 and not cfg["lp"].get("scale"), _singular_huge_row("partial_fit")))
+    # the user's own binarizer refuses one reward of the batch (ValueError from inside the call, after the facade validation and -
+    # for neighbourhood policies - after whatever the policy does before it converts the rewards)
+    strict = lambda cfg, sh: cfg["lp"]["kind"] == "ts" and cfg["lp"].get("binarizer") in ("thr_strict", "inv_strict")  # noqa: E731
+
+    def _neg_reward(d, r, X, rs, cfg, sh):
+        r = r.copy()
+        r[int(rs.integers(len(r)))] = -1.0
+        return d, r, X
+    cat.append(("fit:binarizer_raises", "inside", strict, _train_call("fit", _neg_reward)))
+    cat.append(("partial_fit:binarizer_raises", "inside", lambda cfg, sh: strict(cfg, sh) and sh.fitted, _train_call("partial_fit", _neg_reward)))
     is_ts = lambda cfg, sh: cfg["lp"]["kind"] == "ts"  # noqa: E731
     cat += [
         # a rejected add_arm that carries a perfectly valid binarizer (only the arm is at fault)
